@@ -124,7 +124,10 @@ def _init_repo(path, branches, distinct=False):
                 _git(path, "checkout", "-q", "master")
 
 
-def run_update(root, has_remote, R, L, T, v, rnd, dirty=False):
+LAST = {"revOk": True}  # side channel of run_update: the revision RallyRepository recorded is the commit that is checked out
+
+
+def run_update(root, has_remote, R, L, T, v, rnd, dirty=False, deleted=()):
     """Builds real repositories for (remote branches R, local branches L, tags T) and runs RallyRepository.update.
     dirty (needs has_remote, L = {master}): every remote branch has its own version of a tracked file, the working copy is on
     master with an UNCOMMITTED edit of that file: checking out another branch fails."""
@@ -136,8 +139,11 @@ def run_update(root, has_remote, R, L, T, v, rnd, dirty=False):
     vs = version_str(v, rnd)
     if has_remote:
         remote = os.path.join(root, "remote")
-        _init_repo(remote, [branch_str(b) for b in R], distinct=dirty)
+        _init_repo(remote, [branch_str(b) for b in R] + [branch_str(b) for b in deleted], distinct=dirty)
         rr = repo.RallyRepository(remote_url=remote, root_dir=os.path.join(root, "home"), repo_name="default", resource_name="tracks", offline=False)
+        # history: branches that existed when the repository was cloned have been deleted upstream since
+        for b in deleted:
+            _git(remote, "branch", "-q", "-D", branch_str(b))
         local = os.path.join(root, "home", "default")
         _git(local, "config", "user.email", "v@example.org")
         _git(local, "config", "user.name", "v")
@@ -161,11 +167,17 @@ def run_update(root, has_remote, R, L, T, v, rnd, dirty=False):
         # start from a detached HEAD on a commit of its own so that "nothing checked out" is distinguishable
         _git(local, "checkout", "-q", "--detach", "master")
         _git(local, "commit", "-q", "--allow-empty", "-m", "start")
+    LAST["revOk"] = True
     try:
         rr.update(vs)
     except exceptions.RallyError:
         # SystemSetupError "Cannot find ..." or InvalidSyntax for a version string that is no version: an explicit error
         return dict(NONE)
+    # the revision Rally records (it is what a later load of the same race configuration checks out again) is the commit in use
+    rev = getattr(rr, "revision", None)
+    if rev:
+        head = _git(local, "rev-parse", "HEAD")
+        LAST["revOk"] = head.startswith(str(rev)) or str(rev).startswith(head)
     cur = _git(local, "rev-parse", "--abbrev-ref", "HEAD")
     if cur != "HEAD":
         return parse_branch(cur)
@@ -295,8 +307,20 @@ def run(ctx, out):
             R = []
             if rnd.random() < 0.5:
                 L = [dict(x) for x in a["B"]]
-        o = run_update(root, has_remote, R, L, T, v, rnd)
-        git_items.append({"id": "g%d" % gi, "kind": "up", "hasRemote": has_remote, "R": R, "L": L, "T": T, "v": v, "out": o, "other_names": {"p": OTHER["p"], "q": OTHER["q"]}})
+        # history: in a third of the remote cases one more versioned branch existed at clone time and was deleted upstream later
+        deleted = []
+        if has_remote and rnd.random() < 0.35:
+            # preferably a branch that WOULD be the best match if it still existed (exact minor, else the bare major)
+            cand = [x for x in rnd.choice(full)["B"] if x["k"] == "v" and x not in R and x not in L]
+            if v["k"] == "full":
+                exact = [{"k": "v", "maj": v["maj"], "min": v["min"], "pat": -1, "suf": ""}, {"k": "v", "maj": v["maj"], "min": -1, "pat": -1, "suf": ""}]
+                pref = [x for x in exact if x not in R and x not in L]
+                if pref and rnd.random() < 0.8:
+                    cand = pref[:1]
+            if cand:
+                deleted = [dict(rnd.choice(cand))]
+        o = run_update(root, has_remote, R, L, T, v, rnd, deleted=deleted)
+        git_items.append({"id": "g%d" % gi, "kind": "up", "hasRemote": has_remote, "R": R, "L": L, "T": T, "v": v, "out": o, "revOk": LAST["revOk"], "deleted": deleted, "other_names": {"p": OTHER["p"], "q": OTHER["q"]}})
         out.add_case(("up", has_remote, sorted(map(branch_str, R)), sorted(map(branch_str, L)), sorted(map(branch_str, T)), v))
     # ---- a working copy with uncommitted changes, left on master by an earlier run: Rally either ends on the documented best
     # match or reports an error - it never goes on with another branch
@@ -308,7 +332,7 @@ def run(ctx, out):
         T = [dict(x) for x in c["B"] if x["k"] == "v"] if rnd.random() < 0.3 else []
         v = dict(a["v"])
         o = run_update(root, True, R, [dict(MASTER)], T, v, rnd, dirty=True)
-        git_items.append({"id": "d%d" % gi, "kind": "updirty", "hasRemote": True, "R": R, "L": [dict(MASTER)], "T": T, "v": v, "out": o, "other_names": {"p": OTHER["p"], "q": OTHER["q"]}})
+        git_items.append({"id": "d%d" % gi, "kind": "updirty", "hasRemote": True, "R": R, "L": [dict(MASTER)], "T": T, "v": v, "out": o, "revOk": LAST["revOk"], "deleted": [], "other_names": {"p": OTHER["p"], "q": OTHER["q"]}})
         out.add_case(("updirty", sorted(map(branch_str, R)), sorted(map(branch_str, T)), v))
     shutil.rmtree(root, ignore_errors=True)
     out.sample({"git": {"remote": sorted(map(branch_str, git_items[0]["R"])), "local": sorted(map(branch_str, git_items[0]["L"])), "tags": sorted(map(branch_str, git_items[0]["T"])), "version": git_items[0]["v"], "checked_out": git_items[0]["out"]}})
@@ -335,7 +359,9 @@ def replay(ctx, case):
         it["out"] = call_best_match(it["B"], it["v"], rnd)
     else:
         OTHER.update(it.get("other_names", {}))
-        it["out"] = run_update(os.path.join(tlc.scratch("c15git"), "case"), it["hasRemote"], it["R"], it["L"], it["T"], it["v"], rnd, dirty=it["kind"] == "updirty")
+        it["out"] = run_update(os.path.join(tlc.scratch("c15git"), "case"), it["hasRemote"], it["R"], it["L"], it["T"], it["v"], rnd, dirty=it["kind"] == "updirty", deleted=it.get("deleted", ()))
+        it["revOk"] = LAST["revOk"]
+        it.setdefault("deleted", [])
     v = tracecheck.validate("BranchMatch", "TraceBranchMatch", "TraceBranchMatch.cfg", [it], name="c15replay")
     for tid, fails in v.l1.items():
         print("VIOLATION property=C15 clause=%s result=%s" % (fails[0][1], it["out"]))
